@@ -9,3 +9,4 @@ open Servlin.C09
 #print axioms C09_disk_bound
 #print axioms C09_accepted_within_limit
 #print axioms C09_mem_bound
+#print axioms C09_reset_is_not_eof
